@@ -2,6 +2,8 @@ from __future__ import annotations
 
 from typing import TYPE_CHECKING
 
+import numpy as np
+
 from ._base import BasicAction
 
 if TYPE_CHECKING:
@@ -68,7 +70,9 @@ class AddNode(BasicAction):
                     raise ValueError(
                         f"Must provide position or segmentation for node {node}"
                     )
-        self.pixels = pixels
+        # keep a private copy: the action is applied again on undo/redo, long after the
+        # caller may have reused its index arrays
+        self.pixels = None if pixels is None else tuple(np.array(p) for p in pixels)
         self.attributes = attributes
         self._apply()
 
@@ -124,7 +128,11 @@ class DeleteNode(BasicAction):
             if val is not None
         }
 
-        self.pixels = self.tracks.get_pixels(node) if pixels is None else pixels
+        self.pixels = (
+            self.tracks.get_pixels(node)
+            if pixels is None
+            else tuple(np.array(p) for p in pixels)
+        )
         self._apply()
 
     def inverse(self) -> BasicAction:
